@@ -318,6 +318,14 @@ func GenMulti(c *Chooser, o GenOpts) *MultiWorld {
 			}
 		}
 	}
+	if c.Weighted("world.crlf", 1, 12) {
+		// the workflow files were written by an editor that ends lines with CR LF
+		for _, f := range all {
+			if b, ok := disk.Files[f]; ok && !strings.Contains(string(b), "\r") {
+				disk.Files[f] = []byte(strings.ReplaceAll(string(b), "\n", "\r\n"))
+			}
+		}
+	}
 	mw.AbsArgs = args
 	for _, f := range args {
 		mw.RepoOf[f] = containingRepo(disk, f)
